@@ -8,10 +8,13 @@ SPEC = {
     "ampl": ["BQ_BEFORE_POP", "WAKEANY_AFTER_PUSH", "WAKE1_AFTER_PUSH", "YIELD_CB_AFTER_PUT", "FIN_BEFORE_POP"],
     "required": ["FE_AFTER_SIGNAL", "COND_WAIT_RESUMED", "WAKEANY_EMPTY", "MTX_LOCK_BLOCKS", "SCHED_STEAL_OK"],
     "nontrivial_ids": ["COND_WAIT_RESUMED"],
-    "n_quick": 120, "n_thorough": 2500,
+    "n_quick": 80, "n_thorough": 2500,
     "variants": {"h0": 55, "h2": 35, "asan": 10},
     "rule": ("each evaluation is one process running `progs` single-slot mailbox programs (1-8 producers, 1-8 "
-             "consumers, 0-3 plain lock/unlock users) over one full/empty lock; items carry unique ids; under the "
+             "consumers, 0-3 plain lock/unlock users) or multi-item mailbox programs (status 1 = not empty: producers take "
+             "the plain lock, push and mark 1 - often while the status already is 1 - and 2-8 consumers wait for 1, pop and "
+             "mark 1 while items remain, so several threads sleep for the same status and every mark must let one of "
+             "them proceed) over one full/empty lock; items carry unique ids; under the "
              "lock the harness asserts status==s after wait_and_lock(s), exclusivity (occupancy witness) and "
              "slot/status agreement; at the end consumed multiset == produced multiset. Non-trivial = at least one "
              "participant slept on a status condition and was resumed; distinct = distinct (hook ids that fired, "
